@@ -166,6 +166,25 @@ func keep(xs []int, i int, sink *[]func() int) {
 	*sink = append(*sink, func() int { return xs[i] })
 }
 
+type pair struct {
+	list []int
+	pick int
+}
+
+type chooser interface {
+	choose(p pair) int
+}
+
+type firstChooser struct{}
+
+func (firstChooser) choose(p pair) int { return p.list[p.pick] }
+
+type lastChooser struct{ bias int }
+
+func (l lastChooser) choose(p pair) int { return p.list[len(p.list)-1-p.pick] + l.bias }
+
+func describePair(p pair, label string) string { return fmt.Sprint(label, len(p.list), p.pick) }
+
 // ---- known functions (kept) ----
 
 func run(v interface{}, w *wrapper) (err error) {
@@ -250,8 +269,23 @@ func structs() {
 	}
 }
 
+func objects() {
+	var cs []chooser
+	cs = append(cs, firstChooser{}, lastChooser{bias: 100})
+	for _, c := range cs {
+		p := pair{list: []int{4, 5, 6}, pick: 1}
+		emit(fmt.Sprint("choose ", c.choose(p), " ", c.choose(pair{list: []int{9, 8}, pick: 0})))
+		emit(describePair(p, "pair"))
+	}
+	// a method value held in a local and called later
+	w := &wrapper{base: &base{prefix: "m"}}
+	tag := w.tag
+	emit(tag("x") + tag("y"))
+}
+
 func main() {
 	structs()
+	objects()
 	w := &wrapper{base: &base{prefix: "w"}}
 	for _, v := range []interface{}{nil, 1.5, []interface{}{1, 2}, map[string]interface{}{"a": 1, "b": 2, "c": 3}, []interface{}{}} {
 		err := run(v, w)
